@@ -128,6 +128,16 @@ CLAIMED['C07'] = (
     'raysect cubic interpolators by contract (node value, range policy); log10 and 10**x uninterpreted inverse monotone '
     'functions; values between grid points are not claimed.',
     'DESIGN.md §4 C07', TECH)
+CLAIMED['C14'] = (
+    'Caching1D/2D/3D (translated, with find_index / derivatives_array / factorial) are executed on exact rational '
+    'arithmetic for the area [0,1]^d and several resolutions (2-5 cells per axis in 1D, 2-3 in 2D, 2 in 3D) with the wrapped '
+    'function uninterpreted and the evaluation points symbolic: the value at p2 after evaluating at any p1 equals that of a '
+    'fresh object (also with symbolic function_boundaries, which only rescale internally), values at sampling nodes equal '
+    'the wrapped function, functions linear in each coordinate are reproduced exactly, symbolic quadratics are within '
+    '(1/4) h^2 max|F\'\'| (1D), and outside the area the object raises or - no_boundary_error - calls the function directly.',
+    'numpy.linalg.solve modelled as the exact rational inverse of the concrete collocation matrix; area/resolution concrete per '
+    'job; 3D history independence only in the thorough tier; general C2 error bound outside the claim.',
+    'DESIGN.md §4 C14', TECH)
 NOT_YET = {}
 props = [json.loads(l) for l in open(os.path.join(HERE, 'properties.jsonl'))]
 checks, na = [], []
